@@ -27,6 +27,45 @@ Truthy(v) == CASE v.k = "bool" -> v.b
                [] OTHER -> FALSE
 
 (***************************************************************************)
+(* Arithmetic and logic on script values (the value semantics of C02).     *)
+(* Exact; `f` records whether Python would hold a float.                    *)
+(***************************************************************************)
+IsIntQ(q) == Good(q) /\ q[2] = 1
+BinOp(o, a, b) ==
+    IF Bad(a) THEN a ELSE IF Bad(b) THEN b
+    ELSE IF o = "and" THEN BoolV(Truthy(a) /\ Truthy(b))
+    ELSE IF o = "or" THEN BoolV(Truthy(a) \/ Truthy(b))
+    ELSE IF o = "==" /\ ~(IsNum(a) /\ IsNum(b)) THEN BoolV(a = b)
+    ELSE IF o = "!=" /\ ~(IsNum(a) /\ IsNum(b)) THEN BoolV(a # b)
+    ELSE IF ~(IsNum(a) /\ IsNum(b)) THEN BigV
+    ELSE LET f == a.f \/ b.f
+             c == Cmp(a.q, b.q)
+         IN  CASE o = "+" -> Wrap(Add(a.q, b.q), f)
+               [] o = "-" -> Wrap(Sub(a.q, b.q), f)
+               [] o = "*" -> Wrap(Mul(a.q, b.q), f)
+               [] o = "/" -> IF IsZero(b.q) THEN HaltV ELSE Wrap(Div(a.q, b.q), TRUE)
+               [] o = "%" -> IF IsZero(b.q) THEN HaltV ELSE Wrap(Mod(a.q, b.q), f)
+               [] o = "^" -> IF ~IsIntQ(b.q) \/ Abs(b.q[1]) > 12 THEN BigV
+                             ELSE IF IsZero(a.q) /\ b.q[1] < 0 THEN HaltV
+                             ELSE Wrap(Pow(a.q, b.q[1]), f \/ b.q[1] < 0)
+               [] o \in {"<", "<=", ">", ">=", "==", "!="} ->
+                      IF c = 9 THEN BigV
+                      ELSE BoolV(CASE o = "<" -> c = -1 [] o = "<=" -> c <= 0 [] o = ">" -> c = 1
+                                   [] o = ">=" -> c >= 0 [] o = "==" -> c = 0 [] o = "!=" -> c # 0)
+               [] OTHER -> BigV
+
+Builtin(n, a) ==
+    IF Bad(a) THEN a ELSE IF ~IsNum(a) THEN BigV
+    ELSE CASE n = "floor" -> IntV(Floor(a.q))
+           [] n = "ceil" -> IntV(Ceil(a.q))
+           [] n = "trunc" -> IntV(Trunc(a.q))
+           [] n = "round" -> IF Sub(a.q, I(Floor(a.q))) = <<1, 2>> THEN BigV      \* exact tie: either way, not generated
+                             ELSE IntV(CHOOSE x \in Nearest(a.q) : TRUE)
+           [] n = "cycle" -> Wrap(Mod(a.q, I(360)), a.f \/ ~(Le(I(0), a.q) /\ Lt(a.q, I(360))))
+           [] OTHER -> BigV
+
+
+(***************************************************************************)
 (* Registers and units                                                       *)
 (***************************************************************************)
 Reg0 == [hue |-> IntV(0), saturation |-> IntV(0), brightness |-> IntV(0), kelvin |-> IntV(0),
